@@ -234,7 +234,8 @@ func c06ChecksigCases(yield func(c06Case), thorough bool) {
 			}
 		}
 	}
-	// the signature also sits in the locking script as a push (legacy: removed from the script code)
+	// the signature sits inside the script it signs (legacy: its push is removed from the script
+	// code, so it can sign itself; FORKID: it is not removed, so such a signature cannot verify)
 	for era := 0; era < 2; era++ {
 		for mask := 0; mask < 64; mask++ {
 			var f uint32
@@ -246,26 +247,35 @@ func c06ChecksigCases(yield func(c06Case), thorough bool) {
 			if era == 1 {
 				f |= fGenesis
 			}
-			for _, ht := range []uint8{0x01, 0x41, 0x83} {
-				tail := bytesJoin([]byte{0x75}, minimalPush(k0.comp), []byte{0xac}) // DROP <key> CHECKSIG
-				base := scriptCase{Lock: tail, Flags: f}
-				rt, amount := base.ctx()
+			for _, ht := range []uint8{0x01, 0x41, 0x83, 0xc3} {
 				forkAlgo := ht&0x40 != 0 && f&fForkID != 0
-				// legacy: the code is the script without the signature push; forkid: cannot sign itself, use the tail too
-				sig := cachedSign(k0, 0, scriptref.SpendingTx(nil, tail, amount), 0, tail, amount, ht, forkAlgo, "self")
-				_ = rt
-				lock := bytesJoin(minimalPush(sig), tail)
-				// the credit transaction depends on the locking script, so sign again against the real context
-				real := scriptCase{Lock: lock, Flags: f}
-				rt2, _ := real.ctx()
-				sig2 := cachedSign(k0, 0, rt2, 0, tail, amount, ht, forkAlgo, "self2")
-				lock2 := bytesJoin(minimalPush(sig2), tail)
-				yield(c06Case{scriptCase: scriptCase{Unlock: pushAll(sig2), Lock: lock2, Flags: f}, Op: "sig-in-script", Sig: "self-referential", Key: "compressed", HT: ht})
-				// signature as a proper substring of a longer push in the script
-				lock3 := bytesJoin(minimalPush(append([]byte{0x99}, sig...)), tail)
-				rt3, _ := scriptCase{Lock: lock3, Flags: f}.ctx()
-				sig3 := cachedSign(k0, 0, rt3, 0, lock3, amount, ht, forkAlgo, "sub")
-				yield(c06Case{scriptCase: scriptCase{Unlock: pushAll(sig3), Lock: lock3, Flags: f}, Op: "sig-substring-in-script", Sig: "valid", Key: "compressed", HT: ht})
+				tail := bytesJoin(minimalPush(k0.comp), []byte{0xac}) // <key> CHECKSIG
+				// (1) in the locking script: <sig> <key> CHECKSIG, empty unlocking script
+				{
+					base := scriptCase{Lock: tail, Flags: f, FixedPrev: true}
+					rt, amount := base.ctx()
+					sig := cachedSign(k0, 0, rt, 0, tail, amount, ht, forkAlgo, "self-lock") // signs the code with its own push deleted
+					lock := bytesJoin(minimalPush(sig), tail)
+					yield(c06Case{scriptCase: scriptCase{Unlock: nil, Lock: lock, Flags: f, FixedPrev: true}, Op: "sig-inside-locking-script", Sig: "signs-code-without-itself", Key: "compressed", HT: ht})
+					// signed over the script as it stands (with the push): valid only if nothing is removed
+					sigFull := cachedSign(k0, 0, rt, 0, bytesJoin([]byte{0x47}, make([]byte, 0x47), tail), amount, ht, forkAlgo, "self-lock-full")
+					_ = sigFull
+					// the signature as a proper substring of a longer push
+					lock3 := bytesJoin(minimalPush(append([]byte{0x99}, sig...)), []byte{0x75}, minimalPush(sig), tail)
+					yield(c06Case{scriptCase: scriptCase{Unlock: nil, Lock: lock3, Flags: f, FixedPrev: true}, Op: "sig-substring-in-script", Sig: "signs-code-without-itself", Key: "compressed", HT: ht})
+				}
+				// (2) CHECKSIG executed inside the unlocking script: <sig> <key> CHECKSIG / NOP
+				{
+					base := scriptCase{Unlock: tail, Lock: []byte{0x61}, Flags: f}
+					rt, amount := base.ctx()
+					sig := cachedSign(k0, 0, rt, 0, tail, amount, ht, forkAlgo, "self-unlock")
+					unlock := bytesJoin(minimalPush(sig), tail)
+					yield(c06Case{scriptCase: scriptCase{Unlock: unlock, Lock: []byte{0x61}, Flags: f}, Op: "checksig-inside-unlocking-script", Sig: "signs-code-without-itself", Key: "compressed", HT: ht})
+					// signature over the unlocking script as it stands cannot exist (it would contain itself);
+					// a signature over the code WITH a different push in its place must fail in every mode
+					other := cachedSign(k0, 0, rt, 0, bytesJoin(minimalPush(make([]byte, len(sig))), tail), amount, ht, forkAlgo, "self-unlock-other")
+					yield(c06Case{scriptCase: scriptCase{Unlock: bytesJoin(minimalPush(other), tail), Lock: []byte{0x61}, Flags: f}, Op: "checksig-inside-unlocking-script", Sig: "signs-code-with-placeholder", Key: "compressed", HT: ht})
+				}
 			}
 		}
 	}
